@@ -9,7 +9,9 @@ package main
 import (
 	"bytes"
 	"crypto/sha256"
+	"encoding/base64"
 	"fmt"
+	"math/big"
 	mrand "math/rand"
 	"strings"
 
@@ -174,46 +176,158 @@ func emitVerify(o *Out, key, cand []byte, ds [][]byte, trusted map[string][]maca
 
 // ---------------------------------------------------------------- C01 forge
 
+// value pools of the forge family (family-local: wider than the pools of gen.go)
+var forgeKeyLens = []int{32, 32, 32, 32, 0, 1, 16, 31, 33, 64, 65, 100}
+var forgeKidLens = []int{8, 8, 8, 0, 1, 16, 40, 300}
+var forgeLocs = []string{"https://api.fly.io/v1", "https://api.fly.io/v1", "", "loc", "HTTPS://API.FLY.IO/v1/", "https://api.fly.io/v1?x=1&y=%2F#frag",
+	"https://\u00fc.example/\u03c0/\U0001F511", "a b\tc\n", strings.Repeat("https://long.example/", 16)}
+
+func locClass(l string) string {
+	switch {
+	case l == "":
+		return "empty"
+	case len(l) > 255:
+		return "long"
+	case strings.ContainsAny(l, " \t\n"):
+		return "space"
+	case strings.IndexFunc(l, func(c rune) bool { return c > 127 }) >= 0:
+		return "unicode"
+	case strings.ContainsAny(l, "?#"):
+		return "query"
+	case l != strings.ToLower(l):
+		return "upper"
+	}
+	return "plain"
+}
+
+// hmacKeyEquivalent: HMAC pads keys shorter than its block (64 bytes) with zero bytes and hashes longer ones, so
+// two different byte strings can be ONE key; such a pair is not "another key"
+func hmacKeyEquivalent(a, b []byte) bool {
+	norm := func(k []byte) []byte {
+		if len(k) > 64 {
+			k = sha(k)
+		}
+		return append(append([]byte{}, k...), make([]byte, 64-len(k))...)
+	}
+	return bytes.Equal(norm(a), norm(b))
+}
+
+// loosenToken: the same token value in another msgpack spelling (what the library's decoder accepts for the same Go
+// value); bodies that pass through verification verbatim (unregistered caveats) are left alone
+func loosenToken(r *Rng, tree *mpNode) {
+	mpLoosen(r, tree.Kids[0])
+	mpLoosen(r, tree.Kids[1])
+	mpLoosen(r, tree.Kids[3])
+	cv := tree.Kids[2]
+	if cv.Kind != mpArr {
+		return
+	}
+	if r.Bool() {
+		cv.Code = pick(r, []byte{0xdc, 0xdd})
+	}
+	for i := 0; i+1 < len(cv.Kids); i += 2 {
+		mpLoosen(r, cv.Kids[i])
+		one := mpEnc(&mpNode{Kind: mpArr, Kids: []*mpNode{cv.Kids[i], cv.Kids[i+1]}})
+		if cs, err := macaroon.DecodeCaveats(one); err == nil && len(cs.Caveats) == 1 && !cavHasUnregistered(cs.Caveats[0]) {
+			mpLoosen(r, cv.Kids[i+1])
+		}
+	}
+}
+
+func cavHasUnregistered(c macaroon.Caveat) bool {
+	if _, ok := c.(*macaroon.UnregisteredCaveat); ok {
+		return true
+	}
+	if w, ok := c.(macaroon.WrapperCaveat); ok && w.Unwrap() != nil {
+		for _, x := range w.Unwrap().Caveats {
+			if cavHasUnregistered(x) {
+				return true
+			}
+		}
+	}
+	return false
+}
+
 func famForge(r *Rng, o *Out, tier string) {
 	n := 40
 	if tier == "thorough" {
 		n = 800
 	}
 	for fam := 0; fam < n; fam++ {
-		key := r.Bytes(32)
-		loc := "https://api.fly.io/v1"
+		// issuer key, key-id and location range over what New accepts: any byte strings (the empty ones included),
+		// any text (empty, upper case, query/fragment, non-ASCII, longer than a one-byte length header)
+		key := r.Bytes(pick(r, forgeKeyLens))
+		kid := r.Bytes(pick(r, forgeKidLens))
+		loc := pick(r, forgeLocs)
+		o.count(fmt.Sprintf("root.keylen.%d", len(key)))
+		o.count(fmt.Sprintf("root.kidlen.%d", len(kid)))
+		o.count("root.loc." + locClass(loc))
 		var root *macaroon.Macaroon
 		oldFormat := r.Chance(1, 4)
 		if oldFormat {
 			// a token minted in the old two-field nonce format
-			root, _ = macaroon.Decode(oldFormatToken(key, r.Bytes(8), r.Bytes(16), loc))
+			root, _ = macaroon.Decode(oldFormatToken(key, kid, r.Bytes(16), loc))
 			o.count("root.v0")
 		} else {
-			root, _ = macaroon.New(r.Bytes(8), loc, key)
+			root, _ = macaroon.New(kid, loc, key)
 		}
 		// half of the families carry a third-party caveat (at a random position among the issuer's caveats)
 		// and are presented with its unbound discharge: caveats AFTER it must be as protected as those before
 		var ds [][]byte
+		var trusted map[string][]macaroon.EncryptionKey
 		tpAt := -1
 		nroot := r.Intn(4)
+		// one family in eight has a LONG caveat list (the list header changes format at 8 caveats; an edit far from
+		// both ends): its tree is kept small and the drop positions are sampled, so that the line count stays put
+		long := r.Chance(1, 8)
+		if long {
+			nroot = 9 + r.Intn(16)
+			o.count("root.long")
+		}
 		if r.Bool() {
 			tpAt = r.Intn(nroot + 1)
 		}
+		var boundDs *macaroon.Macaroon
 		for k := 0; k <= nroot; k++ {
 			if k == tpAt {
 				ka := r.Bytes(32)
-				it, _ := newTP(ka, "https://auth.example")
+				tpl := pick(r, []string{"https://auth.example", "https://auth.example", "", "HTTPS://AUTH.EXAMPLE/"})
+				it, _ := newTP(ka, tpl)
 				if root.Add(it.cav) == nil {
-					_, d, _ := macaroon.DischargeTicket(ka, "https://auth.example", it.tp.ticket)
+					_, d, _ := macaroon.DischargeTicket(ka, tpl, it.tp.ticket)
 					ds = append(ds, mustEnc(d))
+					_, boundDs, _ = macaroon.DischargeTicket(ka, tpl, it.tp.ticket) // (bound below, once the root is complete)
 					o.count("root.with3p")
+					// the verifier may have been told to trust the third party (right key, a wrong key, both): what is
+					// accepted does not depend on it
+					switch r.Intn(4) {
+					case 0:
+						trusted = map[string][]macaroon.EncryptionKey{tpl: {ka}}
+						o.count("root.trust.right")
+					case 1:
+						trusted = map[string][]macaroon.EncryptionKey{tpl: {r.Bytes(32), ka}, "https://elsewhere": {ka}}
+						o.count("root.trust.several")
+					case 2:
+						trusted = map[string][]macaroon.EncryptionKey{tpl: {r.Bytes(32)}}
+						o.count("root.trust.wrong")
+					}
 				}
 			}
 			if k < nroot {
 				root.Add(r.plainCav(1))
 			}
 		}
-		hs := growTree(r, root, 2, 2)
+		if boundDs != nil && r.Chance(1, 4) && boundDs.Bind(mustEnc(root)) == nil {
+			// the discharge bound to the root: works with the root and everything attenuated from it
+			ds = [][]byte{mustEnc(boundDs)}
+			o.count("root.with3p.boundDischarge")
+		}
+		var hs []honest
+		if long {
+			hs = growTree(r, root, 1, 1)
+		} else {
+			hs = growTree(r, root, 2, 2)
+		}
 		// what the attacker holds: a random non-empty subset
 		var held []int
 		for i := range hs {
@@ -231,9 +345,12 @@ func famForge(r *Rng, o *Out, tier string) {
 		}
 		try := func(kind string, cand []byte) {
 			o.count("cand." + kind)
-			obs := emitVerify(o, key, cand, ds, nil)
+			obs := emitVerify(o, key, cand, ds, trusted)
 			if obs == "err:unmodelled" {
 				return
+			}
+			if strings.HasPrefix(obs, "ok") {
+				o.count("accepted." + kind)
 			}
 			if strings.HasPrefix(obs, "ok") && !extendsHonest(cand, hs) {
 				o.emit("(const sound)", "forgery:"+kind)
@@ -248,6 +365,9 @@ func famForge(r *Rng, o *Out, tier string) {
 			// tails the attacker can try for a given caveat list
 			tailsFor := func(cavEncs [][]byte) [][]byte {
 				ts := [][]byte{m.Tail, make([]byte, 32), r.Bytes(32), sha(m.Tail), finalizeSig(m.Tail), m.Tail[:16], {}}
+				// (a tail that is LONGER than a MAC and starts / ends with the held one, or one byte short of it)
+				ts = append(ts, pick(r, [][]byte{append(append([]byte{}, m.Tail...), 0), append(append([]byte{}, m.Tail...), m.Tail...),
+					append([]byte{0}, m.Tail...), m.Tail[:31], m.Tail[1:]}))
 				ts = append(ts, pick(r, heldTails))
 				// the honest continuation from this held tail over a suffix (valid only if cavEncs extends h)
 				if len(cavEncs) >= len(h.cavs) {
@@ -271,7 +391,25 @@ func famForge(r *Rng, o *Out, tier string) {
 			add := func(name string, e [][]byte) { edits = append(edits, e); names = append(names, name) }
 			add("same", cs)
 			for i := range cs {
+				if len(cs) > 7 && i != 0 && i != len(cs)-1 && !r.Chance(2, len(cs)) {
+					continue
+				}
 				add("drop", append(append([][]byte{}, cs[:i]...), cs[i+1:]...))
+			}
+			if len(cs) >= 3 {
+				// two caveats at once, and everything but one
+				i := r.Intn(len(cs) - 1)
+				add("drop2", append(append([][]byte{}, cs[:i]...), cs[i+2:]...))
+				j := r.Intn(len(cs))
+				add("keep1", [][]byte{cs[j]})
+			}
+			if len(cs) >= 2 {
+				// neighbours exchanged, the list rotated, the list reversed
+				i := r.Intn(len(cs) - 1)
+				sw := append([][]byte{}, cs...)
+				sw[i], sw[i+1] = sw[i+1], sw[i]
+				add("swap.adjacent", sw)
+				add("rotate", append(append([][]byte{}, cs[1:]...), cs[0]))
 			}
 			if len(cs) >= 2 {
 				i, j := r.Intn(len(cs)), r.Intn(len(cs))
@@ -288,6 +426,13 @@ func famForge(r *Rng, o *Out, tier string) {
 				rep[i] = ne
 				add("replace", rep)
 				add("truncate", cs[:r.Intn(len(cs))])
+				// one caveat altered in place: a single bit of its encoding (mostly the last field's value)
+				alt := append([][]byte{}, cs...)
+				ai := r.Intn(len(cs))
+				ab := append([]byte{}, cs[ai]...)
+				ab[len(ab)-1-r.Intn(min(3, len(ab)-1))] ^= byte(1 << uint(r.Intn(8)))
+				alt[ai] = ab
+				add("alter", alt)
 				dup := append(append([][]byte{}, cs...), cs[r.Intn(len(cs))])
 				add("duplicate", dup)
 			}
@@ -342,10 +487,76 @@ func famForge(r *Rng, o *Out, tier string) {
 				nonceVariants["v0"] = mk(kid, rnd)
 				nonceVariants["proof"] = mk(kid, rnd, &mpNode{Kind: mpBool, B: true})
 				nonceVariants["v1false"] = mk(kid, rnd, &mpNode{Kind: mpBool, B: false})
+				// the boundary between key-id and random part moved (the same bytes, cut elsewhere), either part
+				// shortened, lengthened or emptied
+				if len(rnd) > 0 {
+					nonceVariants["shift.kid+1"] = mk(append(append([]byte{}, kid...), rnd[0]), rnd[1:], nt.Kids[2:]...)
+					nonceVariants["rnd.short"] = mk(kid, rnd[:len(rnd)-1], nt.Kids[2:]...)
+					nonceVariants["rnd.empty"] = mk(kid, []byte{}, nt.Kids[2:]...)
+				}
+				if len(kid) > 0 {
+					nonceVariants["shift.kid-1"] = mk(kid[:len(kid)-1], append([]byte{kid[len(kid)-1]}, rnd...), nt.Kids[2:]...)
+					nonceVariants["kid.empty"] = mk([]byte{}, rnd, nt.Kids[2:]...)
+					nonceVariants["kid.upper"] = mk(bytes.ToUpper(kid), rnd, nt.Kids[2:]...)
+				}
+				nonceVariants["rnd.long"] = mk(kid, append(append([]byte{}, rnd...), 0), nt.Kids[2:]...)
+				nonceVariants["kid.long"] = mk(append(append([]byte{}, kid...), 0), rnd, nt.Kids[2:]...)
+				nonceVariants["swapped"] = mk(rnd, kid, nt.Kids[2:]...)
+				// a proof flag that is not a boolean, a fourth field
+				nonceVariants["proof.int1"] = mk(kid, rnd, &mpNode{Kind: mpInt, U: 1, I: 1})
+				nonceVariants["proof.nil"] = mk(kid, rnd, &mpNode{Kind: mpNil})
+				nonceVariants["fields4"] = mk(kid, rnd, &mpNode{Kind: mpBool, B: false}, &mpNode{Kind: mpBool, B: false})
+				// the SAME nonce in another spelling (text instead of bytes, wider headers): the token is the minted one
+				{
+					same := &mpNode{Kind: mpArr, Code: 0xdc, Kids: append([]*mpNode{{Kind: mpStr, S: kid}, {Kind: mpBin, S: rnd, Code: 0xc5}}, nt.Kids[2:]...)}
+					nonceVariants["respelled"] = mpEnc(same)
+				}
+				for name, v := range nonceVariants {
+					if bytes.Equal(v, nEnc) {
+						delete(nonceVariants, name) // (an upper-cased key-id without letters, ...: not a variant)
+					}
+				}
 			}
-			for name, ne := range nonceVariants {
+			var nvNames []string
+			for name := range nonceVariants {
+				nvNames = append(nvNames, name)
+			}
+			sortStrings(nvNames)
+			for _, name := range nvNames {
+				ne := nonceVariants[name]
 				for _, t := range [][]byte{m.Tail, finalizeSig(m.Tail), pick(r, heldTails)} {
 					try("nonce."+name, assemble(ne, loc, cs, t))
+				}
+			}
+			// the held token, and the held token with a caveat dropped, in NON-CANONICAL spellings of the same values
+			// (wider length headers and integers, text for bytes, the token struct as a map with its fields in another
+			// order and an unknown field): the first is the minted token - nothing new -, the second stays a forgery
+			for k := 0; k < 3; k++ {
+				variants := [][][]byte{cs}
+				vnames := []string{"same"}
+				if len(cs) > 0 {
+					i := r.Intn(len(cs))
+					variants = append(variants, append(append([][]byte{}, cs[:i]...), cs[i+1:]...))
+					vnames = append(vnames, "drop")
+				}
+				for vi, e := range variants {
+					tree, rest, err := mpParse(assemble(nEnc, loc, e, m.Tail))
+					if err != nil || len(rest) != 0 || tree.Kind != mpArr || len(tree.Kids) != 4 {
+						continue
+					}
+					loosenToken(r, tree)
+					if k == 2 {
+						f := []*mpNode{mpStrNode("Tail"), tree.Kids[3], mpStrNode("Nonce"), tree.Kids[0], mpStrNode("UnsafeCaveats"), tree.Kids[2], mpStrNode("Location"), tree.Kids[1]}
+						for i := 3; i > 0; i-- {
+							j := r.Intn(i + 1)
+							f[2*i], f[2*i+1], f[2*j], f[2*j+1] = f[2*j], f[2*j+1], f[2*i], f[2*i+1]
+						}
+						if r.Bool() {
+							f = append(f, mpStrNode("Junk"), &mpNode{Kind: mpInt, U: 7, I: 7})
+						}
+						tree = &mpNode{Kind: mpMap, Kids: f}
+					}
+					try(fmt.Sprintf("respell.%s.map=%v", vnames[vi], k == 2), mpEnc(tree))
 				}
 			}
 			// a map-encoded token that names the Nonce field twice: a three-field nonce claiming "proof", then
@@ -379,6 +590,28 @@ func famForge(r *Rng, o *Out, tier string) {
 			}
 			// location is not authenticated: changing it must not matter (accepted, and still extends h)
 			try("location", assemble(nEnc, "https://elsewhere", cs, m.Tail))
+			try("location", assemble(nEnc, pick(r, forgeLocs), cs, m.Tail))
+			// the held token under keys the issuer does not use: a bit of the key flipped, the empty key, the key
+			// doubled, the token's own tail / key-id / nonce as key
+			{
+				wk := [][]byte{{}, append(append([]byte{}, key...), key...), m.Tail, m.Nonce.KID, nEnc}
+				if len(key) > 0 {
+					fk := append([]byte{}, key...)
+					fk[r.Intn(len(fk))] ^= byte(1 << uint(r.Intn(8)))
+					wk = append(wk, fk, key[:len(key)-1], key[1:])
+				}
+				k2 := pick(r, wk)
+				if !hmacKeyEquivalent(k2, key) {
+					o.count("cand.wrongkey")
+					if obs := emitVerify(o, k2, h.bytes, ds, trusted); obs != "err:unmodelled" {
+						if strings.HasPrefix(obs, "ok") {
+							o.emit("(const sound)", "forgery:accepted-under-another-key")
+						} else {
+							o.emit("(const sound)", "sound")
+						}
+					}
+				}
+			}
 			// byte-level mutations of the held token
 			for k := 0; k < 12; k++ {
 				c := append([]byte{}, h.bytes...)
@@ -421,7 +654,7 @@ func famForge(r *Rng, o *Out, tier string) {
 	// issuer keys of every length (the API takes any byte string; HMAC hashes keys longer than its block): a token
 	// verifies under the key it was minted with and under no sibling key - one sharing the first 32 bytes and
 	// differing later, the 32-byte prefix alone, one differing in its first byte
-	for _, L := range []int{1, 16, 31, 33, 54, 64, 65, 100, 200} {
+	for _, L := range []int{1, 2, 16, 31, 32, 33, 54, 63, 64, 65, 100, 128, 129, 200, 1000} {
 		K := r.Bytes(L)
 		K[L-1] |= 1 // (a key and the same key with zero bytes appended are one HMAC key below the block size)
 		mint := func(k []byte) []byte {
@@ -592,6 +825,7 @@ type dcand struct {
 	b       []byte
 	genuine bool // minted from the caveat's ticket under its rn (possibly with extra caveats, unbound or correctly bound)
 	kind    string
+	ticket  []byte // the ticket it is a genuine discharge OF (nil: the ticket of the pool it sits in)
 }
 
 func famDischarge(r *Rng, o *Out, tier string) {
@@ -599,23 +833,35 @@ func famDischarge(r *Rng, o *Out, tier string) {
 	if tier == "thorough" {
 		n = 4000
 	}
-	parties := []tpParty{{"https://auth.example", nil}, {"https://other.example", nil}, {"tp3", nil}}
+	// third-party locations: distinct parties, and look-alikes of one of them (Add tells locations apart as exact
+	// strings: trailing slash, case, the empty location and a path are other parties)
+	parties := []tpParty{{"https://auth.example", nil}, {"https://other.example", nil}, {"tp3", nil},
+		{"https://auth.example/", nil}, {"HTTPS://AUTH.EXAMPLE", nil}, {"", nil}, {"https://auth.example/v1?x=1", nil}}
 	for fam := 0; fam < n; fam++ {
-		key := r.Bytes(32)
+		key := r.Bytes(pick(r, []int{32, 32, 32, 0, 1, 33, 64}))
 		for i := range parties {
 			parties[i].ka = r.Bytes(32)
 		}
-		loc := "https://api.fly.io/v1"
-		tok, _ := macaroon.New(r.Bytes(8), loc, key)
+		if r.Chance(1, 4) {
+			// two look-alike parties share ONE key (a deployment re-using a key): tickets still tell them apart
+			parties[3].ka = parties[0].ka
+			o.count("parties.sharedkey")
+		}
+		loc := pick(r, []string{"https://api.fly.io/v1", "https://api.fly.io/v1", "", "https://auth.example"})
+		tok, _ := macaroon.New(r.Bytes(pick(r, []int{8, 8, 0, 1, 40})), loc, key)
 		ntp := r.Intn(4)
+		if r.Chance(1, 6) {
+			ntp = 4 + r.Intn(2)
+		}
 		type tpu struct {
 			p      tpParty
 			ticket []byte
 			rn     []byte
+			snap   []byte // the token right after this caveat was added (an ancestor of the final token)
 		}
 		var tps []tpu
-		perm := []int{0, 1, 2}
-		for i := 2; i > 0; i-- {
+		perm := []int{0, 1, 2, 3, 4, 5, 6}
+		for i := len(perm) - 1; i > 0; i-- {
 			j := r.Intn(i + 1)
 			perm[i], perm[j] = perm[j], perm[i]
 		}
@@ -624,14 +870,22 @@ func famDischarge(r *Rng, o *Out, tier string) {
 				tok.Add(r.plainCav(1))
 			}
 			p := parties[perm[i]]
-			it, err := newTP(p.ka, p.loc, r.plainCav(0))
+			// the author's conditions: none, one, several, the same one twice, and kinds that mean something special
+			// on a token (a binding, a third-party caveat, an attestation, a wrapper) - in a ticket they are just data
+			var conds []macaroon.Caveat
+			for k, kk := 0, pick(r, []int{0, 1, 1, 1, 2, 3}); k < kk; k++ {
+				conds = append(conds, r.ticketCond(conds))
+			}
+			o.count(fmt.Sprintf("ticket.conds.%d", len(conds)))
+			it, err := newTP(p.ka, p.loc, conds...)
 			if err != nil {
 				panic(err)
 			}
 			if tok.Add(it.cav) != nil {
 				continue
 			}
-			tps = append(tps, tpu{p, it.tp.ticket, it.tp.rn})
+			o.count("party." + locClass(p.loc))
+			tps = append(tps, tpu{p, it.tp.ticket, it.tp.rn, mustEnc(tok)})
 		}
 		for k, kk := 0, r.Intn(2); k < kk; k++ {
 			tok.Add(r.plainCav(1))
@@ -653,7 +907,7 @@ func famDischarge(r *Rng, o *Out, tier string) {
 				if err != nil {
 					return
 				}
-				cs = append(cs, dcand{b, genuine, kind})
+				cs = append(cs, dcand{b: b, genuine: genuine, kind: kind})
 			}
 			proofD := func() *macaroon.Macaroon {
 				_, d, err := macaroon.DischargeTicket(u.p.ka, u.p.loc, u.ticket)
@@ -699,26 +953,116 @@ func famDischarge(r *Rng, o *Out, tier string) {
 				dd.Tail = pick(r, [][]byte{hmacSum(dd.Tail, ce), finalizeSig(hmacSum(dd.Tail, ce))})
 				return dd
 			})
-			cs = append(cs, dcand{r.Bytes(20), false, "junk"})
+			// genuine ones the third party is free to mint: under another location string (the location of a discharge
+			// is not what ties it to its caveat), in the old two-field nonce format, bound to an ANCESTOR of the token
+			mk("genuine.otherloc", true, func() *macaroon.Macaroon {
+				_, d, err := macaroon.DischargeTicket(u.p.ka, pick(r, []string{"", u.p.loc + "/", strings.ToUpper(u.p.loc), "https://elsewhere", loc}), u.ticket)
+				if err != nil {
+					return nil
+				}
+				return d
+			})
+			mk("genuine.v0", true, func() *macaroon.Macaroon {
+				d, err := macaroon.Decode(oldFormatToken(u.rn, u.ticket, r.Bytes(16), u.p.loc))
+				if err != nil {
+					return nil
+				}
+				if r.Bool() {
+					d.Add(r.plainCav(1))
+				}
+				return d
+			})
+			mk("genuine.boundAncestor", true, func() *macaroon.Macaroon { d := proofD(); d.Bind(u.snap); return d })
+			mk("genuine.bound+caveats", true, func() *macaroon.Macaroon {
+				d := proofD()
+				d.Add(r.plainCav(1))
+				d.Bind(final)
+				d.Add(r.plainCav(1))
+				return d
+			})
+			// a genuine discharge in a non-canonical spelling of the same values
+			if tree, rest, err := mpParse(mustEnc(proofD())); err == nil && len(rest) == 0 && tree.Kind == mpArr && len(tree.Kids) == 4 {
+				loosenToken(r, tree)
+				cs = append(cs, dcand{b: mpEnc(tree), genuine: true, kind: "genuine.respelled"})
+			}
+			// key-ids that are NEARLY the ticket (a prefix, an extension, one bit off, the empty one), signed with the
+			// right secret: they name another ticket
+			mk("ticket.prefix", false, func() *macaroon.Macaroon { d, _ := macaroon.New(u.ticket[:len(u.ticket)-1], u.p.loc, u.rn); return d })
+			mk("ticket.extended", false, func() *macaroon.Macaroon {
+				d, _ := macaroon.New(append(append([]byte{}, u.ticket...), 0), u.p.loc, u.rn)
+				return d
+			})
+			mk("ticket.bitflip", false, func() *macaroon.Macaroon {
+				t := append([]byte{}, u.ticket...)
+				t[r.Intn(len(t))] ^= byte(1 << uint(r.Intn(8)))
+				d, _ := macaroon.New(t, u.p.loc, u.rn)
+				return d
+			})
+			mk("ticket.empty", false, func() *macaroon.Macaroon { d, _ := macaroon.New([]byte{}, u.p.loc, u.rn); return d })
+			// finalisation applied where it does not belong: a non-proof with a finalised tail, a proof finalised twice,
+			// a proof whose nonce says "not a proof"
+			mk("nonproof.finalized", false, func() *macaroon.Macaroon {
+				d, _ := macaroon.New(u.ticket, u.p.loc, u.rn)
+				d.Tail = finalizeSig(d.Tail)
+				return d
+			})
+			mk("proof.refinalized", false, func() *macaroon.Macaroon {
+				dd, err := macaroon.Decode(mustEnc(proofD()))
+				if err != nil {
+					return nil
+				}
+				dd.Tail = finalizeSig(dd.Tail)
+				return dd
+			})
+			mk("proof.flagcleared", false, func() *macaroon.Macaroon {
+				dd, err := macaroon.Decode(mustEnc(proofD()))
+				if err != nil {
+					return nil
+				}
+				dd.Nonce.Proof = false
+				return dd
+			})
+			// signed under keys related to the secret: the third party's key, the issuer's... (the attacker has neither;
+			// a verifier that looked the secret up in the wrong place would accept them)
+			mk("signed.with-ka", false, func() *macaroon.Macaroon { d, _ := macaroon.New(u.ticket, u.p.loc, u.p.ka); return d })
+			mk("signed.with-ticket", false, func() *macaroon.Macaroon { d, _ := macaroon.New(u.ticket, u.p.loc, u.ticket[:32]); return d })
+			mk("signed.with-emptykey", false, func() *macaroon.Macaroon { d, _ := macaroon.New(u.ticket, u.p.loc, []byte{}); return d })
+			// the genuine discharge of ANOTHER caveat of this very token
+			if len(tps) > 1 {
+				v := tps[r.Intn(len(tps))]
+				if !bytes.Equal(v.ticket, u.ticket) {
+					_, d, _ := macaroon.DischargeTicket(v.p.ka, v.p.loc, v.ticket)
+					cs = append(cs, dcand{mustEnc(d), true, "sibling-caveat", v.ticket})
+				}
+			}
+			cs = append(cs, dcand{b: r.Bytes(20), kind: "junk"})
+			cs = append(cs, dcand{b: []byte{}, kind: "empty"})
+			cs = append(cs, dcand{b: final, kind: "the-token-itself"})
 			pool = append(pool, cs)
 		}
 		// assemblies: per ticket a random multiset of candidates (<= 3 each), all shuffled together
 		reps := 12
 		for rep := 0; rep < reps; rep++ {
 			var ds [][]byte
-			satisfiable := true
 			var kinds []string
-			for _, cs := range pool {
-				any := false
+			have := map[string]bool{} // tickets with a genuine discharge among the presented ones
+			for pi, cs := range pool {
 				for k, kk := 0, r.Intn(4); k < kk; k++ {
 					c := pick(r, cs)
 					ds = append(ds, c.b)
 					kinds = append(kinds, c.kind)
-					any = any || c.genuine
+					if c.genuine {
+						t := c.ticket
+						if t == nil {
+							t = tps[pi].ticket
+						}
+						have[string(t)] = true
+					}
 				}
-				if !any {
-					satisfiable = false
-				}
+			}
+			satisfiable := true
+			for _, u := range tps {
+				satisfiable = satisfiable && have[string(u.ticket)]
 			}
 			if r.Chance(1, 3) { // a duplicate and a discharge for a ticket the token does not have
 				if len(ds) > 0 {
@@ -731,7 +1075,40 @@ func famDischarge(r *Rng, o *Out, tier string) {
 				j := r.Intn(i + 1)
 				ds[i], ds[j] = ds[j], ds[i]
 			}
-			obs := emitVerify(o, key, final, ds, nil)
+			// what the verifier was told to trust does not change what is accepted: nothing, every party under its right
+			// key, wrong keys (also of unusable sizes) in front of the right one, keys under look-alike locations
+			var trusted map[string][]macaroon.EncryptionKey
+			switch r.Intn(5) {
+			case 0:
+				trusted = map[string][]macaroon.EncryptionKey{}
+				o.count("trust.empty")
+			case 1:
+				trusted = map[string][]macaroon.EncryptionKey{}
+				for _, u := range tps {
+					trusted[u.p.loc] = append(trusted[u.p.loc], u.p.ka)
+				}
+				o.count("trust.right")
+			case 2:
+				trusted = map[string][]macaroon.EncryptionKey{}
+				for _, u := range tps {
+					trusted[u.p.loc] = append(trusted[u.p.loc], r.Bytes(32), r.Bytes(pick(r, []int{0, 7, 33})), u.p.ka)
+					trusted[u.p.loc+"/"] = append(trusted[u.p.loc+"/"], u.p.ka)
+				}
+				o.count("trust.several")
+			case 3:
+				trusted = map[string][]macaroon.EncryptionKey{}
+				for _, u := range tps {
+					trusted[u.p.loc] = append(trusted[u.p.loc], r.Bytes(32))
+					trusted[""] = append(trusted[""], u.p.ka)
+				}
+				o.count("trust.wrong")
+			default:
+				o.count("trust.nil")
+			}
+			for _, k := range kinds {
+				o.count("cand." + k)
+			}
+			obs := emitVerify(o, key, final, ds, trusted)
 			if obs == "err:unmodelled" {
 				continue
 			}
@@ -793,6 +1170,40 @@ func famDischarge(r *Rng, o *Out, tier string) {
 					o.emit("(const sound)", "sound")
 				}
 			}
+		}
+		// discharges handed over as live objects (VerifyParsed): a proof that was never encoded is not final and
+		// satisfies nothing; once encoded, the same object does
+		if len(tps) > 0 {
+			var dms []*macaroon.Macaroon
+			for _, v := range tps[1:] {
+				_, d, _ := macaroon.DischargeTicket(v.p.ka, v.p.loc, v.ticket)
+				if dd, err := macaroon.Decode(mustEnc(d)); err == nil {
+					dms = append(dms, dd)
+				}
+			}
+			_, live, _ := macaroon.DischargeTicket(tps[0].p.ka, tps[0].p.loc, tps[0].ticket)
+			if r.Bool() {
+				live.Add(r.plainCav(1))
+			}
+			dms = append(dms, live)
+			res := guard(func() string {
+				m, err := macaroon.Decode(final)
+				if err != nil {
+					return "decode"
+				}
+				if _, err := m.VerifyParsed(key, dms, nil); err == nil {
+					return "accepted-with-a-proof-that-was-never-finalised"
+				}
+				if _, err := live.Encode(); err != nil {
+					return "encode"
+				}
+				if _, err := m.VerifyParsed(key, dms, nil); err != nil {
+					return "rejected-with-genuine-live-discharges:" + verifyClass(err)
+				}
+				return "sound"
+			})
+			o.count("liveobjects")
+			o.emit("(const sound)", res)
 		}
 		// a holder appends an own third-party caveat that re-uses the ISSUER's ticket (own secret, own location)
 		// and presents only a discharge signed under the own secret: the issuer's caveat is still undischarged
@@ -883,7 +1294,7 @@ func famDischarge(r *Rng, o *Out, tier string) {
 			}
 		}
 		// tickets: wrong key, flipped bytes, truncation
-		for _, u := range tps {
+		for ui, u := range tps {
 			run := func(kind string, ka, ticket []byte) {
 				res := guard(func() string {
 					cs, dm, err := macaroon.DischargeTicket(ka, u.p.loc, ticket)
@@ -898,6 +1309,7 @@ func famDischarge(r *Rng, o *Out, tier string) {
 					return "ok " + sxCavs(cs) + " " + hx(mustEnc(dm)) + " " + hx(dm.Nonce.Rnd)
 				})
 				o.count("ticket." + kind)
+				o.count("ticket.result." + strings.SplitN(res, " ", 2)[0])
 				if strings.HasPrefix(res, "ok ") {
 					parts := strings.Split(res, " ")
 					rnd := parts[len(parts)-1]
@@ -910,13 +1322,46 @@ func famDischarge(r *Rng, o *Out, tier string) {
 			run("wrongkey", r.Bytes(32), u.ticket)
 			run("shortkey", r.Bytes(16), u.ticket)
 			run("truncated", u.p.ka, u.ticket[:r.Intn(len(u.ticket))])
+			// keys of the sizes next to the right one (the right key cut / extended), the empty key; the empty ticket,
+			// one just too short to hold a nonce, the ticket with a byte appended / without its last byte
+			run("key.31", u.p.ka[:31], u.ticket)
+			run("key.33", append(append([]byte{}, u.p.ka...), 0), u.ticket)
+			run("key.empty", []byte{}, u.ticket)
+			run("key.otherparty", parties[(perm[0]+1)%len(parties)].ka, u.ticket)
+			run("ticket.empty", u.p.ka, []byte{})
+			run("ticket.len12", u.p.ka, u.ticket[:12])
+			run("ticket.len13", u.p.ka, u.ticket[:13])
+			run("ticket.extended", u.p.ka, append(append([]byte{}, u.ticket...), 0))
+			run("ticket.lastcut", u.p.ka, u.ticket[:len(u.ticket)-1])
+			// content sealed under the RIGHT key that is not what the author wrote: the plaintext with bytes after it,
+			// as a map, with a secret of another size, and things that are no ticket at all
+			if pt, ok := aeadOpen(u.p.ka, u.ticket); ok && (ui < 2 || tier == "thorough") {
+				reseal := func(kind string, plain []byte) { run(kind, u.p.ka, aeadSeal(u.p.ka, r.Bytes(12), plain)) }
+				reseal("resealed.same", pt)
+				reseal("resealed.trailing", append(append([]byte{}, pt...), r.Bytes(1+r.Intn(4))...))
+				if tree, rest, err := mpParse(pt); err == nil && len(rest) == 0 && tree.Kind == mpArr && len(tree.Kids) == 2 {
+					reseal("resealed.map", mpEnc(&mpNode{Kind: mpMap, Kids: []*mpNode{mpStrNode("Caveats"), tree.Kids[1], mpStrNode("DischargeKey"), tree.Kids[0]}}))
+					for _, L := range []int{0, 16, 33} {
+						reseal(fmt.Sprintf("resealed.secretlen%d", L), mpEnc(&mpNode{Kind: mpArr, Kids: []*mpNode{{Kind: mpBin, S: r.Bytes(L)}, tree.Kids[1]}}))
+					}
+					reseal("resealed.3fields", mpEnc(&mpNode{Kind: mpArr, Kids: []*mpNode{tree.Kids[0], tree.Kids[1], {Kind: mpBool, B: true}}}))
+					reseal("resealed.1field", mpEnc(&mpNode{Kind: mpArr, Kids: []*mpNode{tree.Kids[0]}}))
+					reseal("resealed.swapped", mpEnc(&mpNode{Kind: mpArr, Kids: []*mpNode{tree.Kids[1], tree.Kids[0]}}))
+				}
+				reseal("resealed.junk", r.Bytes(1+r.Intn(40)))
+				reseal("resealed.emptyplain", []byte{})
+				reseal("resealed.truncatedplain", pt[:r.Intn(len(pt))])
+			}
 			flips := 6
 			if tier == "thorough" {
 				flips = len(u.ticket)
 			}
+			if flips > 128 {
+				flips = 128 // (tickets with several conditions are long: evenly spaced positions)
+			}
 			for k := 0; k < flips; k++ {
 				t := append([]byte{}, u.ticket...)
-				i := k
+				i := k * len(t) / flips
 				if tier != "thorough" {
 					i = r.Intn(len(t))
 				}
@@ -1022,6 +1467,30 @@ func famDischarge(r *Rng, o *Out, tier string) {
 	}
 }
 
+// ticketCond: a condition an author may attach to a ticket - any caveat at all
+func (r *Rng) ticketCond(earlier []macaroon.Caveat) macaroon.Caveat {
+	switch r.Intn(8) {
+	case 0:
+		if len(earlier) > 0 {
+			return earlier[r.Intn(len(earlier))] // the same condition twice
+		}
+	case 1:
+		b := macaroon.BindToParentToken(r.Bytes(pick(r, []int{0, 1, 16, 32})))
+		return &b
+	case 2:
+		return &macaroon.Caveat3P{Location: pick(r, []string{"", "https://deeper.example"}), VerifierKey: r.Bytes(pick(r, []int{0, 60})), Ticket: r.Bytes(pick(r, []int{0, 8, 70}))}
+	case 3:
+		u := auth.FlyioUserID(r.id())
+		if r.Bool() {
+			return &resset.IfPresent{Ifs: macaroon.NewCaveatSet(&u, r.plainCav(0)), Else: r.mask()}
+		}
+		return &u
+	case 4:
+		return r.plainCav(2)
+	}
+	return r.plainCav(0)
+}
+
 // clearObs: verify, then clear the requests against the returned caveats
 func clearObs(key, tok []byte, ds [][]byte, accs []macaroon.Access) string {
 	return guard(func() string {
@@ -1048,14 +1517,27 @@ func famBind(r *Rng, o *Out, tier string) {
 		n = 1200
 	}
 	for fam := 0; fam < n; fam++ {
-		key := r.Bytes(32)
+		key := r.Bytes(pick(r, []int{32, 32, 32, 0, 1, 33, 64}))
 		ka := r.Bytes(32)
-		loc := "https://api.fly.io/v1"
-		root, _ := macaroon.New(r.Bytes(8), loc, key)
+		loc := pick(r, []string{"https://api.fly.io/v1", "https://api.fly.io/v1", "", "HTTPS://API.FLY.IO/v1/"})
+		tpLoc := pick(r, []string{"https://auth.example", "https://auth.example", "", "https://auth.example/login?next=%2F", "HTTPS://AUTH.EXAMPLE"})
+		o.count("tploc." + locClass(tpLoc))
+		root, _ := macaroon.New(r.Bytes(pick(r, []int{8, 8, 0, 1, 40})), loc, key)
+		bare := mustEnc(root) // the token before any caveat: its tail is the first binding id of every token of the tree
 		for k, kk := 0, r.Intn(3); k < kk; k++ {
 			root.Add(r.plainCav(1))
 		}
-		it, _ := newTP(ka, "https://auth.example")
+		it, _ := newTP(ka, tpLoc)
+		// what the verifier was told to trust plays no part in binding
+		var trusted map[string][]macaroon.EncryptionKey
+		switch r.Intn(3) {
+		case 0:
+			trusted = map[string][]macaroon.EncryptionKey{tpLoc: {ka}}
+			o.count("trust.right")
+		case 1:
+			trusted = map[string][]macaroon.EncryptionKey{tpLoc: {r.Bytes(32), ka}, tpLoc + "/": {r.Bytes(32)}}
+			o.count("trust.several")
+		}
 		// half of the families: a second third party on the same token, before or after the one whose discharge
 		// gets bound; its own (unbound, genuine) discharge accompanies every presentation
 		var otherDis []byte
@@ -1093,18 +1575,52 @@ func famBind(r *Rng, o *Out, tier string) {
 		hs := growTree(r, root, 3, 2)
 		// an unrelated tree with its own third-party caveat for the same third party
 		root2, _ := macaroon.New(r.Bytes(8), loc, key)
-		it2, _ := newTP(ka, "https://auth.example")
+		it2, _ := newTP(ka, tpLoc)
 		root2.Add(it2.cav)
 		hs2 := growTree(r, root2, 1, 2)
-		mkDis := func(bindTo [][]byte, bogus bool) []byte {
-			_, d, err := macaroon.DischargeTicket(ka, "https://auth.example", it.tp.ticket)
+		// the discharge that gets bound: a proof, a proof minted under another location string, an old-style non-proof
+		// discharge, one in the two-field nonce format; with the third party's (or the holder's) own caveats before,
+		// between and after the bindings
+		newDis := func() *macaroon.Macaroon {
+			switch r.Intn(6) {
+			case 0:
+				d, _ := macaroon.New(it.tp.ticket, tpLoc, it.tp.rn)
+				o.count("discharge.nonproof")
+				return d
+			case 1:
+				d, err := macaroon.Decode(oldFormatToken(it.tp.rn, it.tp.ticket, r.Bytes(16), tpLoc))
+				if err == nil {
+					o.count("discharge.v0")
+					return d
+				}
+			case 2:
+				_, d, err := macaroon.DischargeTicket(ka, pick(r, []string{"", tpLoc + "/", "https://elsewhere"}), it.tp.ticket)
+				if err == nil {
+					o.count("discharge.otherloc")
+					return d
+				}
+			}
+			_, d, err := macaroon.DischargeTicket(ka, tpLoc, it.tp.ticket)
 			if err != nil {
 				panic(err)
 			}
+			o.count("discharge.proof")
+			return d
+		}
+		mkDis := func(bindTo [][]byte, bogus bool) []byte {
+			d := newDis()
+			plain := func() {
+				if r.Chance(1, 3) {
+					d.Add(r.plainCav(1))
+					o.count("discharge.plainCaveatAroundBinding")
+				}
+			}
+			plain()
 			for _, p := range bindTo {
 				if d.Bind(p) != nil {
 					return nil
 				}
+				plain()
 			}
 			if bogus {
 				b := macaroon.BindToParentToken(r.Bytes(16))
@@ -1116,7 +1632,7 @@ func famBind(r *Rng, o *Out, tier string) {
 		for bi := range hs {
 			d := mkDis([][]byte{hs[bi].bytes}, false)
 			for pi := range hs {
-				obs := emitVerify(o, key, hs[pi].bytes, with(d), nil)
+				obs := emitVerify(o, key, hs[pi].bytes, with(d), trusted)
 				if obs == "err:unmodelled" {
 					continue
 				}
@@ -1130,7 +1646,7 @@ func famBind(r *Rng, o *Out, tier string) {
 			}
 			// presented with an unrelated token (its own caveat has another ticket: no discharge at all) - rejected
 			for pi := range hs2 {
-				obs := emitVerify(o, key, hs2[pi].bytes, [][]byte{d}, nil)
+				obs := emitVerify(o, key, hs2[pi].bytes, [][]byte{d}, trusted)
 				if obs == "err:unmodelled" {
 					continue
 				}
@@ -1141,12 +1657,98 @@ func famBind(r *Rng, o *Out, tier string) {
 				}
 			}
 		}
+		// bound to the token as it was BEFORE any caveat (the tail over the nonce alone is the first binding id of every
+		// token of the tree): works with every node, and with no token of another tree
+		{
+			d := mkDis([][]byte{bare}, false)
+			for pi := range hs {
+				obs := emitVerify(o, key, hs[pi].bytes, with(d), trusted)
+				if obs == "err:unmodelled" {
+					continue
+				}
+				o.count("boundToBare")
+				if !strings.HasPrefix(obs, "ok") {
+					o.emit("(const sound)", fmt.Sprintf("bound-to-the-bare-token-rejected:presented=%d:%s", pi, obs))
+				} else {
+					o.emit("(const sound)", "sound")
+				}
+			}
+		}
+		// ANOTHER token of the same issuer that carries the very same third-party caveat (one caveat value added to two
+		// tokens: same ticket, same secret): the unbound discharge works with both - that is what binding is for -, a
+		// discharge bound to a node of the first tree works with no node of the second
+		{
+			root3, _ := macaroon.New(r.Bytes(8), loc, key)
+			if r.Bool() {
+				root3.Add(r.plainCav(1))
+			}
+			if root3.Add(it.cav) == nil {
+				hs3 := growTree(r, root3, 1, 2)
+				unbound := mkDis(nil, false)
+				toBare := mkDis([][]byte{bare}, false)
+				for pi := range hs3 {
+					obs := emitVerify(o, key, hs3[pi].bytes, [][]byte{unbound}, trusted)
+					if obs != "err:unmodelled" {
+						if strings.HasPrefix(obs, "ok") {
+							o.emit("(const sound)", "sound")
+						} else {
+							o.emit("(const sound)", "unbound-discharge-rejected-with-a-second-token-carrying-the-caveat:"+obs)
+						}
+					}
+					for _, d := range [][]byte{toBare, mkDis([][]byte{hs[r.Intn(len(hs))].bytes}, false)} {
+						obs := emitVerify(o, key, hs3[pi].bytes, [][]byte{d}, trusted)
+						o.count("sameTicketOtherToken")
+						if obs == "err:unmodelled" {
+							continue
+						}
+						if strings.HasPrefix(obs, "ok") {
+							o.emit("(const sound)", "bound-discharge-accepted-with-another-token-carrying-the-same-ticket")
+						} else {
+							o.emit("(const sound)", "sound")
+						}
+					}
+				}
+			}
+		}
+		// two candidates for the one caveat, bound to different nodes (or one of them unbound / junk), in either order:
+		// accepted exactly when one of them works with the presented token
+		for k := 0; k < 6; k++ {
+			b1, b2, pi := r.Intn(len(hs)), r.Intn(len(hs)), r.Intn(len(hs))
+			d1 := mkDis([][]byte{hs[b1].bytes}, false)
+			d2 := mkDis([][]byte{hs[b2].bytes}, false)
+			want := isDescendant(hs, pi, b1) || isDescendant(hs, pi, b2)
+			switch r.Intn(4) {
+			case 0:
+				d2 = r.Bytes(30)
+				want = isDescendant(hs, pi, b1)
+			case 1:
+				d2 = mkDis([][]byte{hs[b2].bytes}, true)
+				want = isDescendant(hs, pi, b1)
+			}
+			ds := [][]byte{d1, d2}
+			if r.Bool() {
+				ds[0], ds[1] = ds[1], ds[0]
+			}
+			if otherDis != nil {
+				ds = append(ds, otherDis)
+			}
+			obs := emitVerify(o, key, hs[pi].bytes, ds, trusted)
+			if obs == "err:unmodelled" {
+				continue
+			}
+			o.count(fmt.Sprintf("twoCandidates.want%v", want))
+			if strings.HasPrefix(obs, "ok") != want {
+				o.emit("(const sound)", fmt.Sprintf("two-candidates-wrong:%d,%d,presented=%d,accepted=%v", b1, b2, pi, !want))
+			} else {
+				o.emit("(const sound)", "sound")
+			}
+		}
 		// a discharge that already carries a SHORTER binding caveat (a prefix binding: the empty one matches every
 		// token, one byte of the root's id matches the whole tree) and is then bound to a node with Bind: the full
 		// binding must still be added and must still hold
 		for k := 0; k < 6; k++ {
 			bi, pi := r.Intn(len(hs)), r.Intn(len(hs))
-			_, d, err := macaroon.DischargeTicket(ka, "https://auth.example", it.tp.ticket)
+			_, d, err := macaroon.DischargeTicket(ka, tpLoc, it.tp.ticket)
 			if err != nil {
 				panic(err)
 			}
@@ -1161,7 +1763,7 @@ func famBind(r *Rng, o *Out, tier string) {
 			if d.Add(&pre) != nil || d.Bind(hs[bi].bytes) != nil {
 				continue
 			}
-			obs := emitVerify(o, key, hs[pi].bytes, with(mustEnc(d)), nil)
+			obs := emitVerify(o, key, hs[pi].bytes, with(mustEnc(d)), trusted)
 			if obs == "err:unmodelled" {
 				continue
 			}
@@ -1187,7 +1789,7 @@ func famBind(r *Rng, o *Out, tier string) {
 			if bytes.Equal(bad, nodeID[:ln]) {
 				continue
 			}
-			_, d, err := macaroon.DischargeTicket(ka, "https://auth.example", it.tp.ticket)
+			_, d, err := macaroon.DischargeTicket(ka, tpLoc, it.tp.ticket)
 			if err != nil {
 				panic(err)
 			}
@@ -1202,7 +1804,7 @@ func famBind(r *Rng, o *Out, tier string) {
 			dB := mustEnc(d)
 			o.count(fmt.Sprintf("longbinding.len%d.withBind=%v", ln, withBind))
 			for pi := range hs {
-				obs := emitVerify(o, key, hs[pi].bytes, with(dB), nil)
+				obs := emitVerify(o, key, hs[pi].bytes, with(dB), trusted)
 				if obs == "err:unmodelled" {
 					continue
 				}
@@ -1228,7 +1830,7 @@ func famBind(r *Rng, o *Out, tier string) {
 			var tokB []byte
 			var dsB [][]byte
 			if r.Bool() {
-				_, d, err := macaroon.DischargeTicket(ka, "https://auth.example", it.tp.ticket)
+				_, d, err := macaroon.DischargeTicket(ka, tpLoc, it.tp.ticket)
 				if err != nil || d.Add(wrapped) != nil {
 					continue
 				}
@@ -1258,8 +1860,8 @@ func famBind(r *Rng, o *Out, tier string) {
 			if err != nil {
 				continue
 			}
-			_, d1, _ := macaroon.DischargeTicket(ka, "https://auth.example", it.tp.ticket)
-			_, d2, _ := macaroon.DischargeTicket(ka, "https://auth.example", it.tp.ticket)
+			_, d1, _ := macaroon.DischargeTicket(ka, tpLoc, it.tp.ticket)
+			_, d2, _ := macaroon.DischargeTicket(ka, tpLoc, it.tp.ticket)
 			if d1.BindToParentMacaroon(pm) != nil || pm.Add(r.plainCav(1)) != nil || d2.BindToParentMacaroon(pm) != nil {
 				continue
 			}
@@ -1275,7 +1877,7 @@ func famBind(r *Rng, o *Out, tier string) {
 				what string
 			}{{hs[pi].bytes, d1, true, "first-bind/parent"}, {child, d1, true, "first-bind/child"},
 				{child, d2, true, "second-bind/child"}, {hs[pi].bytes, d2, false, "second-bind/parent-before-add"}} {
-				obs := emitVerify(o, key, tc.tok, with(mustEnc(tc.d)), nil)
+				obs := emitVerify(o, key, tc.tok, with(mustEnc(tc.d)), trusted)
 				if obs == "err:unmodelled" {
 					continue
 				}
@@ -1295,7 +1897,7 @@ func famBind(r *Rng, o *Out, tier string) {
 				continue
 			}
 			pi := r.Intn(len(hs))
-			obs := emitVerify(o, key, hs[pi].bytes, with(d), nil)
+			obs := emitVerify(o, key, hs[pi].bytes, with(d), trusted)
 			if obs == "err:unmodelled" {
 				continue
 			}
@@ -1334,7 +1936,7 @@ func famBind(r *Rng, o *Out, tier string) {
 				kind += ".boundDischarge"
 			}
 			o.count("boundPermission." + kind)
-			obs := emitVerify(o, key, pmB, ds, nil)
+			obs := emitVerify(o, key, pmB, ds, trusted)
 			if obs == "err:unmodelled" {
 				continue
 			}
@@ -1393,8 +1995,29 @@ func famAttest(r *Rng, o *Out, tier string) {
 		kaTrusted := r.Bytes(32)
 		kaAttacker := r.Bytes(32)
 		loc := "https://api.fly.io/v1"
-		uid := auth.FlyioUserID(1000 + uint64(fam))
-		att := func() macaroon.Caveat { u := uid; return &u }
+		// the honest identity: each of the three attestation types, ordinary and boundary values (zero, 2^63, a Google
+		// id beyond 64 bits); forged identities are uid+500000
+		uid := auth.FlyioUserID(pick(r, []uint64{1000 + uint64(fam), 1000 + uint64(fam), 0, 1 << 63}))
+		attKind := fam % 3
+		mkAtt := func(id uint64, kind int) macaroon.Caveat {
+			switch kind {
+			case 1:
+				u := auth.GitHubUserID(id)
+				return &u
+			case 2:
+				b := new(big.Int).SetUint64(id)
+				if id == uint64(uid) && fam%2 == 0 {
+					b.Add(b, new(big.Int).Lsh(big.NewInt(1), 70))
+				}
+				u := auth.GoogleUserID(*b)
+				return &u
+			}
+			u := auth.FlyioUserID(id)
+			return &u
+		}
+		att := func() macaroon.Caveat { return mkAtt(uint64(uid), attKind) }
+		forgedAtt := func() macaroon.Caveat { return mkAtt(uint64(uid)+500000, attKind) }
+		o.count(fmt.Sprintf("att.kind%d", attKind))
 		wrap := func(c macaroon.Caveat, depth int) macaroon.Caveat {
 			for i := 0; i < depth; i++ {
 				c = &resset.IfPresent{Ifs: macaroon.NewCaveatSet(c), Else: resset.ActionAll}
@@ -1426,6 +2049,13 @@ func famAttest(r *Rng, o *Out, tier string) {
 			"several":  {tpLoc: {r.Bytes(32), kaTrusted, r.Bytes(32)}},
 			"right":    {tpLoc: {kaTrusted}},
 			"shortkey": {tpLoc: {r.Bytes(7), kaTrusted}},
+			// keys of unusable sizes (empty, 33 bytes) in front of the right one; the right key listed twice
+			"emptykeyfirst": {tpLoc: {{}, append(append([]byte{}, kaTrusted...), 0), kaTrusted}},
+			"dupright":      {tpLoc: {kaTrusted, kaTrusted}},
+			// the right key under OTHER spellings of the location only (trailing slash, upper case, empty)
+			"otherspelling": {tpLoc + "/": {kaTrusted}, strings.ToUpper(tpLoc): {kaTrusted}, "": {kaTrusted}},
+			// a wrong key for the location, the right key for another one
+			"elsewhereonly": {tpLoc: {r.Bytes(32)}, "https://elsewhere": {kaTrusted}},
 		}
 		// the permission token with a 3P caveat for the trusted party
 		tok, _ := macaroon.New(r.Bytes(8), loc, key)
@@ -1448,7 +2078,9 @@ func famAttest(r *Rng, o *Out, tier string) {
 		var cases []cas
 		always := func(string) bool { return true }
 		never := func(string) bool { return false }
-		trusting := func(tm string) bool { return tm == "right" || tm == "several" || tm == "shortkey" }
+		trusting := func(tm string) bool {
+			return tm == "right" || tm == "several" || tm == "shortkey" || tm == "emptykeyfirst" || tm == "dupright"
+		}
 		// 1. trusted third party attests in a proof discharge (top level, wrapped 1..3)
 		for depth := 0; depth <= 3; depth++ {
 			_, d, _ := macaroon.DischargeTicket(kaTrusted, tpLoc, it.tp.ticket)
@@ -1644,11 +2276,104 @@ func famAttest(r *Rng, o *Out, tier string) {
 				}
 			}
 		}
+		// 11. the honest discharge under another location string: minted there by the third party (trusted only by a
+		// verifier that lists the key under THAT string), or re-labelled by the bearer (the location is not signed) -
+		// trust follows the location the discharge names, never a look-alike of it
+		{
+			_, d, err := macaroon.DischargeTicket(kaTrusted, tpLoc+"/", it.tp.ticket)
+			if err == nil && d.Add(att()) == nil {
+				cases = append(cases, cas{"trusted.proof.otherloc", final, [][]byte{mustEnc(d)}, true, func(tm string) bool { return tm == "otherspelling" }})
+			}
+			_, d2, _ := macaroon.DischargeTicket(kaTrusted, tpLoc, it.tp.ticket)
+			d2.Add(att())
+			if dd, err := macaroon.Decode(mustEnc(d2)); err == nil {
+				dd.Location = "https://elsewhere"
+				cases = append(cases, cas{"trusted.proof.relabelled", final, [][]byte{mustEnc(dd)}, false, func(tm string) bool { return tm == "wrongloc" || tm == "elsewhereonly" }})
+			}
+			// the attacker's own third party under the look-alike location the verifier lists
+			_, dA, _ := macaroon.DischargeTicket(kaAttacker, tpLoc+"/", itA.tp.ticket)
+			dA.Add(att())
+			cases = append(cases, cas{"attacker.own3p.lookalikeloc", finalA, [][]byte{mustEnc(dA)}, false, never})
+		}
+		// 12. the trusted party's discharge as it usually looks: the identity between other caveats, a second identity of
+		// another type next to it, the discharge bound to the token
+		{
+			_, d, _ := macaroon.DischargeTicket(kaTrusted, tpLoc, it.tp.ticket)
+			d.Add(r.plainCav(1))
+			d.Add(att())
+			d.Add(r.plainCav(1))
+			d.Add(mkAtt(uint64(uid), (attKind+1)%3))
+			if r.Bool() {
+				d.Bind(final)
+			}
+			cases = append(cases, cas{"trusted.proof.mixed", final, [][]byte{mustEnc(d)}, true, trusting})
+			_, db, _ := macaroon.DischargeTicket(kaTrusted, tpLoc, it.tp.ticket)
+			db.Bind(final)
+			db.Add(att())
+			cases = append(cases, cas{"trusted.proof.bound", final, [][]byte{mustEnc(db)}, true, trusting})
+		}
+		// 13. the published honest discharge extended by the bearer with a forged identity (MAC continued from the
+		// published tail, finalised again or not), alone or in front of the untouched honest one
+		{
+			_, d, _ := macaroon.DischargeTicket(kaTrusted, tpLoc, it.tp.ticket)
+			d.Add(att())
+			issued := mustEnc(d)
+			for _, refinal := range []bool{true, false} {
+				dd, err := macaroon.Decode(issued)
+				if err != nil {
+					continue
+				}
+				f := forgedAtt()
+				fe, _ := encOne(f)
+				dd.UnsafeCaveats.Caveats = append(dd.UnsafeCaveats.Caveats, f)
+				dd.Tail = hmacSum(dd.Tail, fe)
+				if refinal {
+					dd.Tail = finalizeSig(dd.Tail)
+				}
+				cases = append(cases, cas{fmt.Sprintf("trusted.proof.extended.refinal=%v", refinal), final, [][]byte{mustEnc(dd)}, false, never})
+				cases = append(cases, cas{fmt.Sprintf("trusted.proof.behindForged.refinal=%v", refinal), final, [][]byte{mustEnc(dd), issued}, true, trusting})
+			}
+		}
+		// 14. deeper wrappers around the identity, on the trusted proof and on the bearer-extended permission token
+		for _, depth := range map[bool][]int{false: {8}, true: {8, 40, 150}}[tier == "thorough"] {
+			_, d, _ := macaroon.DischargeTicket(kaTrusted, tpLoc, it.tp.ticket)
+			handAppend(d, wrap(att(), depth))
+			cases = append(cases, cas{fmt.Sprintf("trusted.proof.depth%d", depth), final, [][]byte{mustEnc(d)}, true, never})
+			t3, _ := macaroon.Decode(final)
+			handAppend(t3, wrap(forgedAtt(), depth))
+			_, d0, _ := macaroon.DischargeTicket(kaTrusted, tpLoc, it.tp.ticket)
+			cases = append(cases, cas{fmt.Sprintf("root.add.wrapped.depth%d", depth), mustEnc(t3), [][]byte{mustEnc(d0)}, false, never})
+		}
+		// 15. a proof under the verifier's own key: a wrapped identity appended before it is published; a forged identity
+		// appended by the bearer afterwards
+		{
+			own, _ := macaroon.NewCaveat3P(key, loc)
+			_, p, _ := macaroon.DischargeTicket(key, loc, own.Ticket)
+			handAppend(p, wrap(att(), 1))
+			cases = append(cases, cas{"ownkey.proof.wrapped", mustEnc(p), nil, false, never})
+			_, p2, _ := macaroon.DischargeTicket(key, loc, own.Ticket)
+			p2.Add(att())
+			if dd, err := macaroon.Decode(mustEnc(p2)); err == nil {
+				f := forgedAtt()
+				fe, _ := encOne(f)
+				dd.UnsafeCaveats.Caveats = append(dd.UnsafeCaveats.Caveats, f)
+				dd.Tail = pick(r, [][]byte{hmacSum(dd.Tail, fe), finalizeSig(hmacSum(dd.Tail, fe)), dd.Tail})
+				cases = append(cases, cas{"ownkey.proof.extended", mustEnc(dd), nil, false, never})
+			}
+		}
 		for _, c := range cases {
 			tms := []string{"nil", "empty", "wrongloc", "wrongkey", "several", "right", "shortkey"}
+			extra := []string{"emptykeyfirst", "dupright", "otherspelling", "elsewhereonly"}
+			if strings.Contains(c.name, "loc") || strings.Contains(c.name, "relabelled") {
+				tms = append(tms, extra...)
+			} else {
+				// (two of the four further maps per case: the line count stays within twice the old one)
+				i := r.Intn(4)
+				tms = append(tms, extra[i], extra[(i+1+r.Intn(3))%4])
+			}
 			for _, tm := range tms {
 				key2 := key
-				if c.name == "ownkey.proof" {
+				if strings.HasPrefix(c.name, "ownkey.proof") {
 					// verified under the discharge key of its own ticket
 					own, _ := macaroon.Decode(c.tok)
 					rn, ok := ticketKey(key, own.Nonce.KID)
@@ -1689,8 +2414,13 @@ func famProof(r *Rng, o *Out, tier string) {
 	}
 	for i := 0; i < n; i++ {
 		ka := r.Bytes(32)
-		loc := "https://auth.example"
-		c3, _ := macaroon.NewCaveat3P(ka, loc)
+		loc := pick(r, []string{"https://auth.example", "https://auth.example", "", "HTTPS://AUTH.EXAMPLE/?x=1"})
+		// (the ticket may carry conditions: they are the third party's business, the proof starts without caveats)
+		var conds []macaroon.Caveat
+		if r.Chance(1, 4) {
+			conds = append(conds, r.plainCav(0))
+		}
+		c3, _ := macaroon.NewCaveat3P(ka, loc, conds...)
 		rn, _ := ticketKey(ka, c3.Ticket)
 		_, dm, err := macaroon.DischargeTicket(ka, loc, c3.Ticket)
 		if err != nil {
@@ -1704,7 +2434,60 @@ func famProof(r *Rng, o *Out, tier string) {
 		parentTok.Add(c3)
 		parentBytes := mustEnc(parentTok)
 		for s, ss := 0, 1+r.Intn(10); s < ss; s++ {
-			switch r.Intn(8) {
+			switch r.Intn(10) {
+			case 9:
+				// printed: String() encodes (and so finalises) like Encode; the token inside the text is the encoded form
+				str, err := dm.String()
+				ops = append(ops, "string")
+				if err != nil {
+					outs = append(outs, "str:err")
+				} else {
+					raw, derr := base64.StdEncoding.DecodeString(strings.TrimPrefix(str, "fm2_"))
+					if derr != nil || !strings.HasPrefix(str, "fm2_") {
+						outs = append(outs, "str:unreadable")
+					} else {
+						outs = append(outs, "str:"+hx(raw))
+						if encoded && lastEnc != nil && !bytes.Equal(raw, lastEnc) {
+							o.emit("(const sound)", "printed-form-differs-from-encoded-form")
+						}
+						lastEnc = raw
+					}
+				}
+				encoded = true
+				o.count("op.string")
+			case 8:
+				// ONE Add call with no caveat at all, with several, with the same caveat twice, with a caveat the proof
+				// already carries: all refused once the proof is final
+				var cs []macaroon.Caveat
+				for k, kk := 0, pick(r, []int{0, 0, 2, 3}); k < kk; k++ {
+					switch {
+					case len(cs) > 0 && r.Chance(1, 3):
+						cs = append(cs, cs[r.Intn(len(cs))])
+					case len(dm.UnsafeCaveats.Caveats) > 0 && r.Chance(1, 3):
+						if c := pick(r, dm.UnsafeCaveats.Caveats); isPlainKind(c) {
+							cs = append(cs, c)
+							break
+						}
+						fallthrough
+					default:
+						cs = append(cs, r.plainCav(1))
+					}
+				}
+				err := dm.Add(cs...)
+				parts := make([]string, len(cs))
+				for k, c := range cs {
+					parts[k] = sxCav(c)
+				}
+				ops = append(ops, strings.TrimSpace("(addn "+strings.Join(parts, " "))+")")
+				if err != nil {
+					outs = append(outs, "addn:"+addClass(err))
+				} else {
+					outs = append(outs, "addn:ok")
+					if encoded {
+						o.emit("(const sound)", fmt.Sprintf("add-of-%d-caveats-accepted-after-encode", len(cs)))
+					}
+				}
+				o.count(fmt.Sprintf("op.addn.%d.encoded=%v", len(cs), encoded))
 			case 7:
 				// binding adds a caveat too: refused once the proof is final (on the object and on decoded copies)
 				target := dm
@@ -1765,6 +2548,13 @@ func famProof(r *Rng, o *Out, tier string) {
 				if r.Chance(1, 5) {
 					u := auth.FlyioUserID(7)
 					c = &u
+				}
+				if len(dm.UnsafeCaveats.Caveats) > 0 && r.Chance(1, 6) {
+					// a caveat the proof already carries (before the proof is final: a no-op; afterwards: refused)
+					if x := pick(r, dm.UnsafeCaveats.Caveats); isPlainKind(x) || macaroon.IsAttestation(x) {
+						c = x
+						o.count(fmt.Sprintf("op.readd.encoded=%v", encoded))
+					}
 				}
 				err := dm.Add(c)
 				ops = append(ops, "(add "+sxCav(c)+")")
@@ -1844,6 +2634,61 @@ func famProof(r *Rng, o *Out, tier string) {
 		o.emit(fmt.Sprintf("(proof.run %s %s %s %s %s (%s))", hx(ka), hs(loc), hx(c3.Ticket), hx(dm.Nonce.Rnd), hx(rn), strings.Join(ops, " ")), strings.Join(outs, " "))
 		// hand-built extensions from the published form
 		pub := mustEnc(dm)
+		// the published form itself: verifies from bytes (unless it carries a binding: then only next to its parent), a
+		// decoded copy re-encodes to the same bytes, and every way of adding is refused on the object and on the copy
+		{
+			obs := emitVerify(o, rn, pub, nil, nil)
+			if obs != "err:unmodelled" {
+				if !strings.HasPrefix(obs, "ok") && !bound {
+					o.emit("(const sound)", "published-proof-does-not-verify:"+obs)
+				} else {
+					o.emit("(const sound)", "sound")
+				}
+			}
+			res := guard(func() string {
+				cp, err := macaroon.Decode(pub)
+				if err != nil {
+					return "published-proof-does-not-decode"
+				}
+				if again, err := cp.Encode(); err != nil || !bytes.Equal(again, pub) {
+					return "decoded-copy-re-encodes-differently"
+				}
+				if again, err := dm.Encode(); err != nil || !bytes.Equal(again, pub) {
+					return "encoded-form-changed"
+				}
+				for _, target := range []*macaroon.Macaroon{dm, cp} {
+					n := len(target.UnsafeCaveats.Caveats)
+					tail := append([]byte{}, target.Tail...)
+					if target.Add3P(r.Bytes(32), "https://late.example") == nil {
+						return "third-party-caveat-added-to-final-proof"
+					}
+					if target.BindToParentMacaroon(parentTok) == nil {
+						return "binding-added-to-final-proof"
+					}
+					if target.Add() == nil {
+						return "empty-add-accepted-on-final-proof"
+					}
+					if len(target.UnsafeCaveats.Caveats) != n || !bytes.Equal(target.Tail, tail) {
+						return "refused-add-changed-the-proof"
+					}
+				}
+				return "sound"
+			})
+			o.emit("(const sound)", res)
+		}
+		// shortened instead of extended: the last caveat taken away, every tail the bearer can compute
+		if dd, err := macaroon.Decode(pub); err == nil && len(dd.UnsafeCaveats.Caveats) > 0 {
+			dd.UnsafeCaveats.Caveats = dd.UnsafeCaveats.Caveats[:len(dd.UnsafeCaveats.Caveats)-1]
+			dd.Tail = pick(r, [][]byte{dd.Tail, finalizeSig(dd.Tail), sha(dd.Tail), make([]byte, 32)})
+			o.count("handcut")
+			if obs := emitVerify(o, rn, mustEnc(dd), nil, nil); obs != "err:unmodelled" {
+				if strings.HasPrefix(obs, "ok") {
+					o.emit("(const sound)", "hand-shortened-proof-accepted")
+				} else {
+					o.emit("(const sound)", "sound")
+				}
+			}
+		}
 		for k := 0; k < 9; k++ {
 			dd, _ := macaroon.Decode(pub)
 			// what is appended: a plain caveat, or one of the kinds verification treats specially (an attestation,
@@ -1868,7 +2713,19 @@ func famProof(r *Rng, o *Out, tier string) {
 			ce, _ := encOne(c)
 			dd.UnsafeCaveats.Caveats = append(dd.UnsafeCaveats.Caveats, c)
 			t := hmacSum(dd.Tail, ce)
-			dd.Tail = pick(r, [][]byte{t, finalizeSig(t), dd.Tail, sha(dd.Tail), finalizeSig(dd.Tail)})
+			dd.Tail = pick(r, [][]byte{t, finalizeSig(t), dd.Tail, sha(dd.Tail), finalizeSig(dd.Tail), t[:16], {}, append(append([]byte{}, dd.Tail...), t...)})
+			// (also with the nonce saying "not a proof", in the three-field and in the old two-field form: the chain then
+			// starts elsewhere, and a non-proof is never finalised)
+			switch r.Intn(6) {
+			case 0:
+				dd.Nonce.Proof = false
+				o.count("handext.flagcleared")
+			case 1:
+				if nn, err := macaroon.DecodeNonce(oldFormatToken(nil, dd.Nonce.KID, dd.Nonce.Rnd, "")); err == nil {
+					dd.Nonce = nn
+					o.count("handext.nonce-v0")
+				}
+			}
 			cand := mustEnc(dd)
 			obs := emitVerify(o, rn, cand, nil, nil)
 			if obs == "err:unmodelled" {
@@ -1890,27 +2747,149 @@ func famAttenuate(r *Rng, o *Out, tier string) {
 	if tier == "thorough" {
 		n = 2000
 	}
+	lateLocs := []string{"https://auth.example/", "HTTPS://AUTH.EXAMPLE", ""} // (look-alikes of the root's third party: other parties)
 	for fam := 0; fam < n; fam++ {
-		key := r.Bytes(32)
+		key := r.Bytes(pick(r, []int{32, 32, 32, 0, 1, 64}))
 		ka := r.Bytes(32)
-		loc := "https://api.fly.io/v1"
-		root, _ := macaroon.New(r.Bytes(8), loc, key)
+		loc := pick(r, []string{"https://api.fly.io/v1", "https://api.fly.io/v1", "", "HTTPS://API.FLY.IO/v1/"})
+		root, _ := macaroon.New(r.Bytes(pick(r, []int{8, 8, 0, 40})), loc, key)
 		root.Add(&flyio.Organization{ID: 1, Mask: resset.ActionAll})
 		var ds [][]byte
+		var legacy *tpInfo // the root's third party, when its discharge is an old-style (non-proof) one a holder can attenuate
 		if r.Bool() {
 			it, _ := newTP(ka, "https://auth.example")
 			root.Add(it.cav)
-			_, d, _ := macaroon.DischargeTicket(ka, "https://auth.example", it.tp.ticket)
-			if r.Bool() {
-				d.Add(r.clearCav())
+			switch r.Intn(4) {
+			case 0:
+				// an old-style discharge (not a proof): holders can attenuate it too
+				d, _ := macaroon.New(it.tp.ticket, "https://auth.example", it.tp.rn)
+				if r.Bool() {
+					d.Add(r.clearCav())
+				}
+				ds = append(ds, mustEnc(d))
+				legacy = it.tp
+				o.count("rootDischarge.nonproof")
+			case 1:
+				// bound to the root: usable with the root and everything attenuated from it
+				_, d, _ := macaroon.DischargeTicket(ka, "https://auth.example", it.tp.ticket)
+				d.Bind(mustEnc(root))
+				if r.Bool() {
+					d.Add(r.clearCav())
+				}
+				ds = append(ds, mustEnc(d))
+				o.count("rootDischarge.boundToRoot")
+			default:
+				_, d, _ := macaroon.DischargeTicket(ka, "https://auth.example", it.tp.ticket)
+				if r.Bool() {
+					d.Add(r.clearCav())
+				}
+				ds = append(ds, mustEnc(d)) // unbound: usable with parent and child
+				o.count("rootDischarge.unbound")
 			}
-			ds = append(ds, mustEnc(d)) // unbound: usable with parent and child
 		}
-		hs := growTreeWith(r, root, 3, 2, func() macaroon.Caveat { return r.clearCav() })
+		// the attenuation tree: holders work from bytes; a step is ONE Add call with one caveat, with several (among them
+		// the same one twice, or one the token already carries), or with a third-party caveat of the holder's choosing
+		// (whose discharge - possibly carrying restrictions of its own - then belongs to the child's presentation)
+		rb := mustEnc(root)
+		n0, c0, _ := tokParts(rb)
+		hs := []honest{{rb, n0, c0, -1}}
+		nds := [][][]byte{ds}    // per node: the discharges that go with it
+		demand := map[int]bool{} // nodes whose last step added a third-party caveat
+		frontier := []int{0}
+		for d := 0; d < 3; d++ {
+			var next []int
+			for _, pi := range frontier {
+				for f, ff := 0, 1+r.Intn(2); f < ff; f++ {
+					m, err := macaroon.Decode(hs[pi].bytes)
+					if err != nil {
+						continue
+					}
+					cds := nds[pi]
+					is3p := false
+					switch r.Intn(6) {
+					case 0:
+						kb := r.Bytes(32)
+						var conds []macaroon.Caveat
+						if r.Bool() {
+							conds = append(conds, r.plainCav(0))
+						}
+						tl := lateLocs[d]
+						if r.Chance(1, 4) {
+							// a location the token may already have a third-party caveat for (the root's, an earlier step's):
+							// then Add refuses - it never drops the caveat silently - and the token stays as it was
+							tl = pick(r, append([]string{"https://auth.example"}, lateLocs[:d]...))
+							o.count("step.thirdparty.locationAgain")
+						}
+						it, err := newTP(kb, tl, conds...)
+						if err != nil {
+							continue
+						}
+						before := mustEnc(m)
+						if doAdd(o, m, []addItem{it}) != nil {
+							if !bytes.Equal(mustEnc(m), before) {
+								o.emit("(const sound)", "refused-third-party-caveat-changed-the-token")
+							} else {
+								o.emit("(const sound)", "sound")
+							}
+							continue
+						}
+						_, dd, _ := macaroon.DischargeTicket(kb, tl, it.tp.ticket)
+						if r.Bool() {
+							dd.Add(r.clearCav())
+						}
+						cds = append(append([][]byte{}, cds...), mustEnc(dd))
+						is3p = true
+						o.count("step.thirdparty")
+					case 1, 2:
+						var items []addItem
+						for k, kk := 0, 2+r.Intn(2); k < kk; k++ {
+							switch {
+							case len(items) > 0 && r.Chance(1, 3):
+								items = append(items, items[r.Intn(len(items))])
+							case r.Chance(1, 4):
+								if x := pick(r, m.UnsafeCaveats.Caveats); isPlainKind(x) {
+									items = append(items, addItem{cav: x})
+									break
+								}
+								fallthrough
+							default:
+								items = append(items, addItem{cav: r.clearCav()})
+							}
+						}
+						if doAdd(o, m, items) != nil {
+							continue
+						}
+						o.count(fmt.Sprintf("step.multi.%d", len(items)))
+					default:
+						if doAdd(o, m, []addItem{{cav: r.clearCav()}}) != nil {
+							continue
+						}
+						o.count("step.single")
+					}
+					b := mustEnc(m)
+					nn, cc, _ := tokParts(b)
+					hs = append(hs, honest{b, nn, cc, pi})
+					nds = append(nds, cds)
+					if is3p {
+						demand[len(hs)-1] = true
+					}
+					next = append(next, len(hs)-1)
+				}
+			}
+			frontier = next
+		}
 		for ci := range hs {
 			pi := hs[ci].parent
 			if pi < 0 {
 				continue
+			}
+			// against the token it was derived from: the parent, or (as often) an earlier ancestor
+			anc := pi
+			for anc > 0 && r.Bool() {
+				anc = hs[anc].parent
+			}
+			if anc != pi {
+				o.count("ancestor.further")
 			}
 			for q := 0; q < 6; q++ {
 				d := r.Dyn()
@@ -1918,11 +2897,20 @@ func famAttenuate(r *Rng, o *Out, tier string) {
 				d.Org = p64(1)
 				kind := "full"
 				acc := d.As(kind)
+				co := clearObs(key, hs[ci].bytes, nds[ci], []macaroon.Access{acc})
+				// (the implication only says something when the child permits: half of the requests are drawn until the
+				// child permits one, at most 16 draws)
+				for k := 0; q%2 == 0 && co != "permit" && k < 16; k++ {
+					d = r.Dyn()
+					d.WF = ""
+					d.Org = p64(1)
+					acc = d.As(kind)
+					co = clearObs(key, hs[ci].bytes, nds[ci], []macaroon.Access{acc})
+				}
 				sx := d.Sx(kind)
-				co := clearObs(key, hs[ci].bytes, ds, []macaroon.Access{acc})
-				po := clearObs(key, hs[pi].bytes, ds, []macaroon.Access{acc})
-				o.emit(fmt.Sprintf("(clear %s %s %s (trust) (%s))", hx(key), hx(hs[ci].bytes), sxHexList(ds), sx), co)
-				o.emit(fmt.Sprintf("(clear %s %s %s (trust) (%s))", hx(key), hx(hs[pi].bytes), sxHexList(ds), sx), po)
+				po := clearObs(key, hs[anc].bytes, nds[anc], []macaroon.Access{acc})
+				o.emit(fmt.Sprintf("(clear %s %s %s (trust) (%s))", hx(key), hx(hs[ci].bytes), sxHexList(nds[ci]), sx), co)
+				o.emit(fmt.Sprintf("(clear %s %s %s (trust) (%s))", hx(key), hx(hs[anc].bytes), sxHexList(nds[anc]), sx), po)
 				o.count("child." + co)
 				if co == "permit" && po != "permit" {
 					o.emit("(const sound)", "attenuation-enlarged-authority")
@@ -1930,10 +2918,58 @@ func famAttenuate(r *Rng, o *Out, tier string) {
 					o.emit("(const sound)", "sound")
 				}
 			}
+			// an added third-party caveat makes the token demand its discharge: presented with what sufficed for the
+			// parent, the child is refused whatever the request
+			if demand[ci] {
+				d := r.Dyn()
+				d.WF = ""
+				d.Org = p64(1)
+				acc, sx := d.As("full"), d.Sx("full")
+				co := clearObs(key, hs[ci].bytes, nds[pi], []macaroon.Access{acc})
+				o.emit(fmt.Sprintf("(clear %s %s %s (trust) (%s))", hx(key), hx(hs[ci].bytes), sxHexList(nds[pi]), sx), co)
+				o.count("thirdparty.demanded." + co)
+				if co != "reject" {
+					o.emit("(const sound)", "added-third-party-caveat-does-not-demand-its-discharge:"+co)
+				} else {
+					o.emit("(const sound)", "sound")
+				}
+			}
+		}
+		// a holder attenuates the (old-style, non-proof) DISCHARGE instead of the token: that restricts as well
+		if legacy != nil {
+			for k := 0; k < 2; k++ {
+				dm, err := macaroon.Decode(ds[0])
+				if err != nil || dm.Add(r.clearCav()) != nil {
+					continue
+				}
+				ds2 := [][]byte{mustEnc(dm)}
+				ti := r.Intn(len(hs))
+				if len(nds[ti]) != 1 {
+					continue // (a node with further third parties: its own discharges would have to come along)
+				}
+				for q := 0; q < 3; q++ {
+					d := r.Dyn()
+					d.WF = ""
+					d.Org = p64(1)
+					acc, sx := d.As("full"), d.Sx("full")
+					co := clearObs(key, hs[ti].bytes, ds2, []macaroon.Access{acc})
+					po := clearObs(key, hs[ti].bytes, ds, []macaroon.Access{acc})
+					o.emit(fmt.Sprintf("(clear %s %s %s (trust) (%s))", hx(key), hx(hs[ti].bytes), sxHexList(ds2), sx), co)
+					o.emit(fmt.Sprintf("(clear %s %s %s (trust) (%s))", hx(key), hx(hs[ti].bytes), sxHexList(ds), sx), po)
+					o.count("dischargeAttenuated." + co)
+					if co == "permit" && po != "permit" {
+						o.emit("(const sound)", "attenuating-the-discharge-enlarged-authority")
+					} else {
+						o.emit("(const sound)", "sound")
+					}
+				}
+			}
 		}
 		// an added caveat is enforced; a byte-identical re-add leaves the token unchanged
 		for k := 0; k < 4; k++ {
-			h := hs[r.Intn(len(hs))]
+			hi := r.Intn(len(hs))
+			h := hs[hi]
+			ds := nds[hi]
 			m, _ := macaroon.Decode(h.bytes)
 			c := r.clearCav()
 			before := mustEnc(m)
@@ -1946,9 +2982,53 @@ func famAttenuate(r *Rng, o *Out, tier string) {
 			} else {
 				o.emit("(const sound)", "sound")
 			}
+			// re-adding a caveat the token carries ANYWHERE (the first, one in the middle, one a parent added), alone or
+			// inside a longer Add call next to a new caveat given twice: the carried one is never appended again, the new
+			// one exactly once
+			if mm, err := macaroon.Decode(after); err == nil && len(mm.UnsafeCaveats.Caveats) > 0 {
+				xi := r.Intn(len(mm.UnsafeCaveats.Caveats))
+				if x := mm.UnsafeCaveats.Caveats[xi]; isPlainKind(x) {
+					doAdd(o, mm, []addItem{{cav: x}})
+					o.count("readd.existing")
+					if !bytes.Equal(mustEnc(mm), after) {
+						o.emit("(const sound)", fmt.Sprintf("readd-of-carried-caveat-changed-token:position=%d", xi))
+					} else {
+						o.emit("(const sound)", "sound")
+					}
+					fresh := r.clearCav()
+					fe, _ := encOne(fresh)
+					count := func(b []byte) int {
+						k := 0
+						if _, cs, ok := tokParts(b); ok {
+							for _, e := range cs {
+								if bytes.Equal(e, fe) {
+									k++
+								}
+							}
+						}
+						return k
+					}
+					had := count(after)
+					mm2, _ := macaroon.Decode(after)
+					doAdd(o, mm2, []addItem{{cav: fresh}, {cav: x}, {cav: fresh}})
+					got := mustEnc(mm2)
+					want := 1
+					if had > 0 {
+						want = had
+					}
+					o.count("readd.insideLongerAdd")
+					_, csA, _ := tokParts(after)
+					_, csG, _ := tokParts(got)
+					if count(got) != want || len(csG) != len(csA)+want-had {
+						o.emit("(const sound)", "longer-add-with-duplicates-wrong")
+					} else {
+						o.emit("(const sound)", "sound")
+					}
+				}
+			}
 			// near-duplicate: differs in one field -> must be kept
-			if org, ok := c.(*flyio.Organization); ok {
-				c2 := &flyio.Organization{ID: org.ID, Mask: org.Mask ^ 1}
+			if c2 := nearDup(r, c); c2 != nil {
+				o.count(fmt.Sprintf("neardup.%T", c))
 				m3, _ := macaroon.Decode(after)
 				doAdd(o, m3, []addItem{{cav: c2}})
 				c2e, _ := encOne(c2)
@@ -2020,6 +3100,81 @@ func famAttenuate(r *Rng, o *Out, tier string) {
 			}
 		}
 	}
+}
+
+// nearDup: a caveat of the same type that differs from c in one place (one field, one map entry, one list element,
+// one bit of a mask); nil when none can be made.  Typed for the kinds clearing distinguishes, otherwise by changing one
+// byte of the encoding and reading the result back.
+func nearDup(r *Rng, c macaroon.Caveat) macaroon.Caveat {
+	ce, err := encOne(c)
+	if err != nil {
+		return nil
+	}
+	differs := func(d macaroon.Caveat) macaroon.Caveat {
+		de, err := encOne(d)
+		if err != nil || bytes.Equal(de, ce) {
+			return nil
+		}
+		return d
+	}
+	switch v := c.(type) {
+	case *flyio.Organization:
+		if r.Bool() {
+			return differs(&flyio.Organization{ID: v.ID, Mask: v.Mask ^ 1})
+		}
+		return differs(&flyio.Organization{ID: v.ID + 1, Mask: v.Mask})
+	case *flyio.Apps:
+		m := resset.ResourceSet[uint64, resset.Action]{}
+		for k, x := range v.Apps {
+			m[k] = x
+		}
+		if len(m) > 0 && r.Bool() {
+			for k := range m {
+				m[k] ^= 1 // (every entry: the choice must not depend on map order)
+			}
+		} else {
+			m[1<<40] = resset.ActionRead // one more entry
+		}
+		return differs(&flyio.Apps{Apps: m})
+	case *resset.Action:
+		a := *v ^ pick(r, []resset.Action{1, 2, 0x8000})
+		return differs(&a)
+	case *macaroon.ValidityWindow:
+		if r.Bool() {
+			return differs(&macaroon.ValidityWindow{NotBefore: v.NotBefore, NotAfter: v.NotAfter + 1})
+		}
+		return differs(&macaroon.ValidityWindow{NotBefore: v.NotBefore - 1, NotAfter: v.NotAfter})
+	case *resset.IfPresent:
+		if r.Bool() {
+			return differs(&resset.IfPresent{Ifs: v.Ifs, Else: v.Else ^ 1})
+		}
+		inner := append([]macaroon.Caveat{}, v.Ifs.Caveats...)
+		a := resset.Action(1)
+		inner = append(inner, &a) // the same wrapper with one more inner caveat
+		return differs(&resset.IfPresent{Ifs: macaroon.NewCaveatSet(inner...), Else: v.Else})
+	case *flyio.Mutations:
+		if len(v.Mutations) >= 2 && v.Mutations[0] != v.Mutations[1] {
+			ms := append([]string{}, v.Mutations...)
+			ms[0], ms[1] = ms[1], ms[0] // the same elements in another order
+			return differs(&flyio.Mutations{Mutations: ms})
+		}
+	}
+	// any other type: one bit of the last bytes of the encoding (mostly the last field's value)
+	for try := 0; try < 8; try++ {
+		b := append([]byte{}, ce...)
+		b[len(b)-1-r.Intn(min(3, len(b)-1))] ^= byte(1 << uint(r.Intn(8)))
+		cs, err := macaroon.DecodeCaveats(b)
+		if err != nil || len(cs.Caveats) != 1 || cs.Caveats[0].CaveatType() != c.CaveatType() || cavsHaveNil(cs.Caveats) {
+			continue
+		}
+		if b2, err := cs.MarshalMsgpack(); err != nil || !bytes.Equal(b2, b) {
+			continue
+		}
+		if d := differs(cs.Caveats[0]); d != nil {
+			return d
+		}
+	}
+	return nil
 }
 
 // clearCav: caveats that can clear some requests of the harness (so permit/deny both occur)
